@@ -18,6 +18,10 @@ def _step(tok):
 # the seeded event generator), caught by user code, followed by another suspension: every terminal status must count
 # as "completed work" for the silent/audible rule
 TEMPLATES = [
+    # a completed step, then a child context whose first batch touches two operations (paginated responses)
+    [{"op": "log", "msg": "A"}, _step("t"), {"op": "log", "msg": "B"},
+     {"op": "child", "body": [_step("s"), {"op": "log", "msg": "in"}], "limit": 200, "summary": "", "catch": True},
+     {"op": "log", "msg": "C"}, _step("i5"), {"op": "log", "msg": "D"}, {"op": "wait", "secs": 1}, {"op": "log", "msg": "E"}],
     [{"op": "log", "msg": "A"}, _step("s"), {"op": "log", "msg": "B"}, {"op": "invoke", "payload": "s", "catch": True},
      {"op": "log", "msg": "C"}, {"op": "wait", "secs": 1}, {"op": "log", "msg": "D"}, _step("t"), {"op": "log", "msg": "E"}],
     [{"op": "log", "msg": "A"}, {"op": "cbnew", "slot": 0}, {"op": "log", "msg": "B"}, {"op": "cbres", "slot": 0, "catch": True},
